@@ -102,13 +102,19 @@ Definition events (s : sys) (sch : list tid) : list read_ev := events_aux s sch 
 Definition lin_check (s : sys) (sch : list tid) : bool :=
   let hs := states_along s sch in forallb (lin_read_b hs) (events s sch).
 
-(* ---- the C06 statements (see Props/C06.v for what is proved) -------------------------- *)
+(* ---- the C06 statements (proved in Conc/ReadLin2.v and Conc/CloseThm2.v, exported by
+   Props/C06.v) ------------------------------------------------------------------------------
+   single writer: only thread w issues StoreLogs / DeleteRange *)
+Definition one_writer (w : tid) (progs extra : list (list op)) : Prop :=
+  forall t p, nth_error (progs ++ [] :: extra) t = Some p -> t <> w ->
+              forallb (fun o => negb (match o with OStore _ _ _ | ODelete _ | OTrunc _ => true | _ => false end)) p = true.
+
 (* every completed read of every schedule is linearizable against the writer *)
 Definition reads_linearizable_statement : Prop :=
-  forall progs extra sch e,
+  forall w progs extra sch e, one_writer w progs extra ->
     In e (events (init progs extra) sch) -> lin_read (states_along (init progs extra) sch) e.
 
 (* no read ever goes through a closed file handle *)
 Definition stable_entry_intact_statement : Prop :=
-  forall progs extra sch t th,
+  forall w progs extra sch t th, one_writer w progs extra ->
     nth_error (ths (run step (init progs extra) sch)) t = Some th -> ~ In IOErr (t_outs th).
